@@ -41,6 +41,18 @@ class Child:
         self.starts += 1
 
     def call(self, mod: str, fn: str, args: Dict[str, Any]) -> Any:
+        try:
+            return self._call(mod, fn, args)
+        except ChildError as e:
+            if "child interpreter died" not in str(e) and "Broken pipe" not in str(e):
+                raise
+        except (BrokenPipeError, OSError):
+            pass
+        # the interpreter went away (killed, out of memory): one retry in a fresh one
+        self.close()
+        return self._call(mod, fn, args)
+
+    def _call(self, mod: str, fn: str, args: Dict[str, Any]) -> Any:
         if self.p is None or self.p.poll() is not None or self.jobs >= self.max_jobs:
             self.close()
             self._start()
